@@ -4,7 +4,13 @@
 //! `$cgas $ggas depth` after the instruction; the Lean driver replays schedule evaluator + gas machine.
 //! Oracle (independent of the model): cgas <= ggas, cgas + saved frames' cgas <= ggas, ggas non-increasing,
 //! cgas/ggas move together, call forwarding / return credit equations, OutOfGas shape, gas_used = limit - ggas,
-//! and the charge of every simply-priced opcode against `GasCosts` looked up by mnemonic.
+//! and the charge of EVERY opcode (ECAL excepted) against the schedule: `spec_charges` lists, from the specification
+//! (schedule entry looked up by mnemonic; dependent costs over the word-padded code length for CALL, the
+//! max(stored, requested) length for LDC / CCP / BLDD, the stored length for CSIZ / CROO / BSIZ, the length operand of
+//! the memory opcodes, hot / cold slot reads, slot writes and new-storage-byte surcharges for the storage opcodes), the
+//! charges the instruction has to make in order, from the state observed BEFORE the instruction; the consumed gas
+//! must be their sum, OutOfGas must occur exactly when a prefix sum exceeds `$cgas`, and an instruction that panics
+//! for another reason must have consumed exactly a non-empty prefix.
 #[path = "../gen/vmgen.rs"]
 mod vmgen;
 #[path = "../gen/gas_gen.rs"]
@@ -12,8 +18,10 @@ mod gas_gen;
 use crate::{ctx::Ctx, gen::instr_gen as g};
 use fuel_asm::{Instruction, PanicReason, RegId};
 use fuel_tx::{ContractIdExt, DependentCost, GasCostsValues, Receipt};
-use fuel_types::{AssetId, ContractId, SubAssetId};
-use fuel_vm::{prelude::InterpreterStorage, storage::ContractsAssetsStorage};
+use fuel_storage::StorageSize;
+use fuel_types::{AssetId, BlobId, Bytes32, ContractId, SubAssetId};
+use fuel_vm::{prelude::InterpreterStorage, storage::{BlobData, ContractsAssetsStorage, ContractsState, ContractsStateKey}};
+use std::collections::BTreeMap;
 use vmgen::*;
 
 pub fn dep_str(d: &DependentCost) -> String {
@@ -30,9 +38,9 @@ pub fn dump(v: &GasCostsValues) -> String {
     s.join(" ")
 }
 pub fn sched_line(v: &GasCostsValues) -> String {
-    let f = gas_gen::fixed_values(v).expect("V7");
-    let d = gas_gen::dep_values(v).expect("V7");
-    format!("sched {} {}", f.iter().map(|x| x.to_string()).collect::<Vec<_>>().join(" "), d.iter().map(dep_str).collect::<Vec<_>>().join(" "))
+    let f = gas_gen::fixed_values_any(v);
+    let d = gas_gen::dep_values_any(v);
+    format!("sched {} {} {}", gas_gen::version(v), f.iter().map(|x| x.to_string()).collect::<Vec<_>>().join(" "), d.iter().map(dep_str).collect::<Vec<_>>().join(" "))
 }
 
 const STORAGE_OPS: &[&str] = &["SCWQ", "SRW", "SRWQ", "SWW", "SWWQ", "SCLR", "SRDD", "SRDI", "SWRD", "SWRI", "SUPD", "SUPI", "SPLD"];
@@ -46,22 +54,27 @@ struct StepRec {
     cgas_b: u64, ggas_b: u64, saved_b: Vec<u64>,
     cgas_a: u64, ggas_a: u64, saved_a: Vec<u64>,
     receipts_b: usize,
+    spec: Option<Spec>,
 }
 
 fn pad8(x: u64) -> Option<u64> { x.checked_add(7).map(|v| v & !7) }
 
-/// run-time sizes the schedule depends on, read from the VM state BEFORE the instruction executes
+/// run-time state the schedule depends on, read from the VM BEFORE the instruction executes (what the model is told):
+/// CALL `[callee exists, code size, new-balance-entry]`; TR / MINT `[new-balance-entry]`; LDC (contract, blob) / CCP /
+/// CROO / CSIZ / BSIZ / BLDD `[exists, stored length]`; storage opcodes `[in slot cache, value length]` per slot in key order
 fn sizes(vm: &Vm, mn: &str, a: &[u64]) -> Vec<u64> {
     let st: &fuel_vm::prelude::MemoryStorage = vm.as_ref();
     let csize = |id: &ContractId| st.storage_contract_size(id).ok().flatten().map(|x| x as u64);
     let has_bal = |c: &ContractId, a: &AssetId| st.contract_asset_id_balance(c, a).ok().flatten().is_some();
+    let bsize = |id: &BlobId| StorageSize::<BlobData>::size_of_value(st, id).ok().flatten().map(|x| x as u64);
+    let stored = |l: Option<u64>| match l { Some(l) => vec![1, l], None => vec![0, 0] };
     match mn {
         "CALL" => {
             let id = mem32(vm, a[0]).map(ContractId::new);
             let asset = mem32(vm, a[2]).map(AssetId::new);
-            let size = id.as_ref().and_then(|i| csize(i)).and_then(pad8).unwrap_or(0);
-            let new_entry = match (&id, &asset) { (Some(i), Some(s)) => a[1] != 0 && !has_bal(i, s), _ => false };
-            vec![size, new_entry as u64]
+            let mut v = stored(id.as_ref().and_then(|i| csize(i)));
+            v.push(match (&id, &asset) { (Some(i), Some(s)) => (a[1] != 0 && !has_bal(i, s)) as u64, _ => 0 });
+            v
         }
         "TR" => {
             let id = mem32(vm, a[0]).map(ContractId::new);
@@ -73,40 +86,229 @@ fn sizes(vm: &Vm, mn: &str, a: &[u64]) -> Vec<u64> {
             let sub = mem32(vm, a[1]).map(SubAssetId::new);
             vec![match (&c, &sub) { (Some(c), Some(s)) => (!has_bal(c, &c.asset_id(s))) as u64, _ => 0 }]
         }
-        "CSIZ" | "CROO" => vec![mem32(vm, a[1]).map(ContractId::new).and_then(|i| csize(&i)).unwrap_or(0)],
-        "CCP" => vec![mem32(vm, a[1]).map(ContractId::new).and_then(|i| csize(&i)).map(|l| l.max(a[3])).unwrap_or(0)],
-        "LDC" => vec![mem32(vm, a[0]).map(ContractId::new).and_then(|i| csize(&i)).map(|l| l.max(pad8(a[2]).unwrap_or(u64::MAX))).unwrap_or(0)],
+        "CSIZ" | "CROO" | "CCP" => stored(mem32(vm, a[1]).map(ContractId::new).and_then(|i| csize(&i))),
+        "BSIZ" | "BLDD" => stored(mem32(vm, a[1]).map(BlobId::new).and_then(|i| bsize(&i))),
+        "LDC" => match a[3] {
+            0 => stored(mem32(vm, a[0]).map(ContractId::new).and_then(|i| csize(&i))),
+            1 => stored(mem32(vm, a[0]).map(BlobId::new).and_then(|i| bsize(&i))),
+            _ => vec![],
+        },
+        _ if STORAGE_OPS.contains(&mn) => {
+            let key_ptr = match mn { "SRW" | "SRWQ" => a[2], "SRDD" | "SRDI" | "SPLD" => a[1], _ => a[0] };
+            let (Some(c), Some(key)) = (current_contract(vm), mem32(vm, key_ptr).map(Bytes32::new)) else { return vec![] };
+            let n = match mn { "SCWQ" => a[2], "SRWQ" | "SWWQ" => a[3], "SCLR" => 0, _ => 1 };
+            let mut v = vec![];
+            for i in 0..n.min(SLOT_CAP) {
+                let Some(k) = key_add(&key, i) else { break };
+                match vm.bench_storage_slot_cache().get(&(c, k)) {
+                    Some(val) => { v.push(1); v.push(val.as_ref().map(|d| d.len()).unwrap_or(0) as u64); }
+                    None => { v.push(0); v.push(StorageSize::<ContractsState>::size_of_value(st, &ContractsStateKey::new(&c, &k)).ok().flatten().unwrap_or(0) as u64); }
+                }
+            }
+            v
+        }
         _ => vec![],
     }
 }
 
-/// the schedule entry an opcode is priced with, by mnemonic (fuel-specs: every instruction has its own
-/// entry; aliases listed here) — deliberately NOT derived from opcodes_impl.rs
-fn priced_by(mn: &str) -> Option<(String, Option<usize>)> {
-    let lower = mn.to_lowercase();
-    let alias = match mn {
-        "MOD" => "mod_op", "MOVE" => "move_op", "JAL" => "jmp", "CFS" => "cfsi", "LQW" | "LHW" => "lw", "SQW" | "SHW" => "sw",
-        _ => lower.as_str(),
-    };
-    if ["TR", "MINT", "CALL", "LDC", "CCP", "CROO", "CSIZ", "BSIZ", "BLDD", "ECAL"].contains(&mn) || STORAGE_OPS.contains(&mn) { return None; }
-    if gas_gen::FIXED.contains(&alias) { return Some((alias.to_string(), None)); }
-    if gas_gen::DEP.contains(&alias) {
-        let unit = match mn { "RETD" | "MCL" | "MCLI" => 1, "SMO" | "MCP" | "MCPI" | "K256" | "S256" | "EPAR" => 2, "ALOC" | "CFEI" | "CFE" => 0, "MEQ" | "LOGD" | "ED19" => 3, _ => return None };
-        return Some((alias.to_string(), Some(unit)));
-    }
+// ---------------------------------------------------------------------------------------------
+// Specification-side schedule evaluator (independent of opcodes_impl.rs, of the Lean model and of
+// `DependentCost::resolve*`): which schedule entries an instruction is charged, in which order, over which unit counts.
+
+/// schedule entry by name in the schedule's own version; `None`: this version does not define it
+fn fixed_cost(v: &GasCostsValues, field: &str) -> Option<u64> {
+    let i = gas_gen::fixed_names(gas_gen::version(v)).iter().position(|f| *f == field)?;
+    Some(gas_gen::fixed_values_any(v)[i])
+}
+/// versions that price an instruction with a plain word serve it as a heavy operation without per-unit cost;
+/// V1 / V2 have no `cfe` entry and price CFE like CFEI
+fn dep_cost(v: &GasCostsValues, field: &str) -> Option<DependentCost> {
+    let k = gas_gen::version(v);
+    if let Some(i) = gas_gen::dep_names(k).iter().position(|f| *f == field) { return Some(gas_gen::dep_values_any(v)[i]); }
+    if let Some(base) = fixed_cost(v, field) { return Some(DependentCost::HeavyOperation { base, gas_per_unit: 0 }); }
+    if field == "cfe" && k <= 2 { return dep_cost(v, "cfei"); }
     None
 }
-fn expected_cost(v: &GasCostsValues, mn: &str, a: &[u64]) -> Option<u64> {
-    let (field, unit) = priced_by(mn)?;
-    match unit {
-        None => { let i = gas_gen::FIXED.iter().position(|f| *f == field)?; Some(gas_gen::fixed_values(v)?[i]) }
-        Some(u) => {
-            let i = gas_gen::DEP.iter().position(|f| *f == field)?;
-            let mut units = *a.get(u)?;
-            if mn == "ED19" && units == 0 { units = 32; }
-            Some(gas_gen::dep_values(v)?[i].resolve(units))
+fn dep_base(d: &DependentCost) -> u64 { match d { DependentCost::LightOperation { base, .. } | DependentCost::HeavyOperation { base, .. } => *base } }
+/// the part of a dependent cost that depends on the unit count: `units / units_per_gas` (light), `units * gas_per_unit` (heavy, saturating)
+fn dep_units(d: &DependentCost, units: u64) -> Option<u64> {
+    match d {
+        DependentCost::LightOperation { units_per_gas, .. } => units.checked_div(*units_per_gas),
+        DependentCost::HeavyOperation { gas_per_unit, .. } => Some(u64::try_from(units as u128 * *gas_per_unit as u128).unwrap_or(u64::MAX)),
+    }
+}
+fn dep_total(d: &DependentCost, units: u64) -> Option<u64> { Some(dep_base(d).saturating_add(dep_units(d, units)?)) }
+
+/// size in bytes of one contract balance entry (asset id + amount) that the new-storage surcharge of TR / MINT / CALL pays for
+const BALANCE_ENTRY_BYTES: u64 = 32 + 8;
+
+type SlotKey = (ContractId, Bytes32);
+/// slots accessed (read, written or cleared) earlier in this transaction -> byte length of their current value (`None`: unset).
+/// A slot is *hot* iff it is in this map; maintained by the oracle itself from the executed instructions.
+type Hot = BTreeMap<SlotKey, Option<usize>>;
+
+#[derive(Clone, Debug, Default)]
+struct Spec {
+    /// (schedule entry and unit count, amount), in the order the instruction has to make them
+    charges: Vec<(String, u64)>,
+    /// false: only a prefix is known - the instruction cannot complete (missing contract / blob, key range past 2^256,
+    /// external context, unreadable operand memory, ...) and has to panic after at most these charges
+    complete: bool,
+    /// storage slots the instruction accesses with the hot flag and length the oracle's own history gives them,
+    /// and what the VM's slot cache says about the same slots (compared by the caller)
+    cache_mismatch: Option<String>,
+    /// the next schedule entry is not defined in this schedule version: GasCostNotDefined after the listed charges
+    undefined: Option<String>,
+}
+impl Spec {
+    fn push(&mut self, what: String, amount: Option<u64>) -> bool {
+        if !self.complete { return false; }
+        match amount { Some(a) => { self.charges.push((what, a)); true } None => { self.complete = false; self.undefined = Some(what); false } }
+    }
+}
+
+fn key_add(key: &Bytes32, i: u64) -> Option<Bytes32> {
+    let mut b = **key; let mut carry = i as u128;
+    for k in (0..32).rev() { let v = b[k] as u128 + (carry & 0xff); b[k] = v as u8; carry = (carry >> 8) + (v >> 8); if carry == 0 { break; } if k == 0 && carry != 0 { return None; } }
+    Some(Bytes32::new(b))
+}
+
+struct SlotView<'a> { vm: &'a Vm, hot: &'a mut Hot, costs: &'a GasCostsValues, mismatch: Option<String>, seen: Vec<SlotKey> }
+impl<'a> SlotView<'a> {
+    fn stored_len(&self, k: &SlotKey) -> Option<usize> {
+        let st: &fuel_vm::prelude::MemoryStorage = self.vm.as_ref();
+        StorageSize::<ContractsState>::size_of_value(st, &ContractsStateKey::new(&k.0, &k.1)).ok().flatten()
+    }
+    /// (is hot, current length) by the oracle's history; cross-checked against the VM's slot cache
+    fn look(&mut self, k: &SlotKey) -> (bool, Option<usize>) {
+        let mine = self.hot.get(k).cloned();
+        let vm = self.vm.bench_storage_slot_cache().get(k).map(|v| v.as_ref().map(|d| d.len()));
+        // (the VM's cache is the state before the instruction: compare at the instruction's first access of the slot only)
+        let first = !self.seen.contains(k);
+        if first { self.seen.push(*k); }
+        if first && mine != vm && self.mismatch.is_none() { self.mismatch = Some(format!("slot {}: access history says {:?}, VM cache says {:?}", crate::util::hex(&*k.1), mine, vm)); }
+        match mine { Some(l) => (true, l), None => (false, self.stored_len(k)) }
+    }
+    /// one charged slot read: `storage_read_hot` / `storage_read_cold` over the value's byte length (0 if unset)
+    fn read(&mut self, sp: &mut Spec, k: &SlotKey) -> Option<usize> {
+        let (hot, len) = self.look(k);
+        let entry = if hot { "storage_read_hot" } else { "storage_read_cold" };
+        let units = len.unwrap_or(0) as u64;
+        let d = dep_cost(self.costs, entry);
+        sp.push(format!("{entry}[{}]({units})", d.as_ref().map(dep_str).unwrap_or_else(|| "undefined".into())), d.and_then(|d| dep_total(&d, units)));
+        self.hot.insert(*k, len);
+        len
+    }
+    /// one slot write of `new_len` bytes: `storage_write` over the new length, then `new_storage_per_byte` for every byte
+    /// the value grows by (nothing when it shrinks); looking up the old length is not charged
+    fn write(&mut self, sp: &mut Spec, k: &SlotKey, new_len: u64) {
+        let (_, old) = self.look(k);
+        let old = old.unwrap_or(0) as u64;
+        let d = dep_cost(self.costs, "storage_write");
+        if !sp.push(format!("storage_write[{}]({new_len})", d.as_ref().map(dep_str).unwrap_or_else(|| "undefined".into())), d.and_then(|d| dep_total(&d, new_len))) { return; }
+        let grow = new_len.saturating_sub(old);
+        let per = fixed_cost(self.costs, "new_storage_per_byte");
+        sp.push(format!("new_storage_per_byte[{}]*{grow}(old {old})", per.unwrap_or(0)), per.map(|p| p.saturating_mul(grow)));
+        self.hot.insert(*k, Some(new_len as usize));
+    }
+    fn clear(&mut self, sp: &mut Spec, c: &ContractId, key: &Bytes32, range: u64) {
+        let d = dep_cost(self.costs, "storage_clear");
+        if !sp.push(format!("storage_clear[{}]({range})", d.as_ref().map(dep_str).unwrap_or_else(|| "undefined".into())), d.and_then(|d| dep_total(&d, range))) { return; }
+        for i in 0..range.min(SLOT_CAP) { if let Some(k) = key_add(key, i) { self.hot.insert((*c, k), None); } }
+    }
+}
+/// generated programs keep slot ranges far below this; a larger range makes the expectation open-ended (not checked)
+const SLOT_CAP: u64 = 64;
+
+/// The charges instruction `mn` with operand values `a` has to make, from the state before it executes.
+/// `None`: not priced by this oracle (ECAL, undecodable word).
+fn spec_charges(vm: &Vm, costs: &GasCostsValues, hot: &mut Hot, mn: &str, a: &[u64]) -> Option<Spec> {
+    let st: &fuel_vm::prelude::MemoryStorage = vm.as_ref();
+    let csize = |id: &ContractId| st.storage_contract_size(id).ok().flatten().map(|x| x as u64);
+    let bsize = |id: &BlobId| StorageSize::<BlobData>::size_of_value(st, id).ok().flatten().map(|x| x as u64);
+    let has_bal = |c: &ContractId, a: &AssetId| st.contract_asset_id_balance(c, a).ok().flatten().is_some();
+    let mut sp = Spec { charges: vec![], complete: true, cache_mismatch: None, undefined: None };
+    let lower = mn.to_lowercase();
+    let entry = match mn { "MOD" => "mod_op", "MOVE" => "move_op", "JAL" => "jmp", "CFS" => "cfsi", "LQW" | "LHW" => "lw", "SQW" | "SHW" => "sw", _ => lower.as_str() };
+    let new_entry = |sp: &mut Spec| { let per = fixed_cost(costs, "new_storage_per_byte"); sp.push(format!("new_storage_per_byte[{}]*{BALANCE_ENTRY_BYTES}", per.unwrap_or(0)), per.map(|p| p.saturating_mul(BALANCE_ENTRY_BYTES))); };
+    // base of a dependent entry first, the unit-dependent part once the size is known
+    let base_then = |sp: &mut Spec, units: Option<u64>| {
+        let d = dep_cost(costs, entry);
+        let tag = d.as_ref().map(dep_str).unwrap_or_else(|| "undefined".into());
+        if !sp.push(format!("{entry}[{tag}].base"), d.as_ref().map(dep_base)) { return; }
+        match units { Some(u) => { sp.push(format!("{entry}[{tag}].units({u})"), d.and_then(|d| dep_units(&d, u))); } None => sp.complete = false }
+    };
+    match mn {
+        "ECAL" | "?" => return None,
+        "CALL" => {
+            let id = mem32(vm, a[0]).map(ContractId::new);
+            let asset = mem32(vm, a[2]).map(AssetId::new);
+            base_then(&mut sp, id.as_ref().and_then(|i| csize(i)).and_then(pad8));
+            match (&id, &asset) { (Some(i), Some(s)) => { if sp.complete && a[1] != 0 && !has_bal(i, s) { new_entry(&mut sp); } } _ => sp.complete = false }
+        }
+        "TR" => {
+            sp.push("tr".into(), fixed_cost(costs, "tr"));
+            match (mem32(vm, a[0]).map(ContractId::new), mem32(vm, a[2]).map(AssetId::new)) { (Some(i), Some(s)) => { if a[1] != 0 && !has_bal(&i, &s) { new_entry(&mut sp); } } _ => sp.complete = false }
+        }
+        "MINT" => {
+            sp.push("mint".into(), fixed_cost(costs, "mint"));
+            match (current_contract(vm), mem32(vm, a[1]).map(SubAssetId::new)) { (Some(c), Some(s)) => { if !has_bal(&c, &c.asset_id(&s)) { new_entry(&mut sp); } } _ => sp.complete = false }
+        }
+        "CSIZ" | "CROO" => base_then(&mut sp, mem32(vm, a[1]).map(ContractId::new).and_then(|i| csize(&i))),
+        "CCP" => base_then(&mut sp, mem32(vm, a[1]).map(ContractId::new).and_then(|i| csize(&i)).map(|l| l.max(a[3]))),
+        "BSIZ" => base_then(&mut sp, mem32(vm, a[1]).map(BlobId::new).and_then(|i| bsize(&i))),
+        "BLDD" => base_then(&mut sp, mem32(vm, a[1]).map(BlobId::new).and_then(|i| bsize(&i)).map(|l| l.max(a[3]))),
+        "LDC" => match a[3] {
+            0 => base_then(&mut sp, mem32(vm, a[0]).map(ContractId::new).and_then(|i| csize(&i)).and_then(|l| pad8(a[2]).map(|p| l.max(p)))),
+            1 => base_then(&mut sp, mem32(vm, a[0]).map(BlobId::new).and_then(|i| bsize(&i)).map(|l| l.max(pad8(a[2]).unwrap_or(u64::MAX)))),
+            2 if a[2] == 0 => { sp.push("ldc.base".into(), dep_cost(costs, "ldc").as_ref().map(dep_base)); }
+            2 => base_then(&mut sp, Some(pad8(a[2]).unwrap_or(u64::MAX))),
+            _ => base_then(&mut sp, None),
+        },
+        _ if STORAGE_OPS.contains(&mn) => {
+            sp.push("noop".into(), fixed_cost(costs, "noop"));
+            let key_ptr = match mn { "SRW" | "SRWQ" => a[2], "SRDD" | "SRDI" | "SPLD" => a[1], _ => a[0] };
+            let (Some(c), Some(key)) = (current_contract(vm), mem32(vm, key_ptr).map(Bytes32::new)) else { sp.complete = false; return Some(sp); };
+            let mut view = SlotView { vm, hot, costs, mismatch: None, seen: vec![] };
+            let range = match mn { "SCWQ" => Some(a[2]), "SRWQ" | "SWWQ" => Some(a[3]), _ => None };
+            if let Some(range) = range {
+                for i in 0..range.min(SLOT_CAP) {
+                    let Some(k) = key_add(&key, i) else { sp.complete = false; break };
+                    view.read(&mut sp, &(c, k));
+                    if mn == "SWWQ" { view.write(&mut sp, &(c, k), 32); }
+                    if !sp.complete { break; }
+                }
+                if range > SLOT_CAP { sp.complete = false; }
+                if mn == "SCWQ" && sp.complete { view.clear(&mut sp, &c, &key, range); }
+            } else {
+                let k = (c, key);
+                match mn {
+                    "SRW" | "SRDD" | "SRDI" | "SPLD" => { view.read(&mut sp, &k); }
+                    "SWW" => { view.read(&mut sp, &k); view.write(&mut sp, &k, 32); }
+                    "SWRD" | "SWRI" => view.write(&mut sp, &k, a[2]),
+                    "SUPD" | "SUPI" => {
+                        let old = view.read(&mut sp, &k).unwrap_or(0) as u64;
+                        let off = if a[2] == u64::MAX { old } else { a[2] };
+                        if off > old { sp.complete = false; } else { view.write(&mut sp, &k, old.max(off.saturating_add(a[3]))); }
+                    }
+                    "SCLR" => { if a[1] > 1 && key_add(&key, a[1] - 1).is_none() { sp.complete = false; } else { view.clear(&mut sp, &c, &key, a[1]); } }
+                    _ => return None,
+                }
+            }
+            sp.cache_mismatch = view.mismatch;
+        }
+        _ => {
+            if gas_gen::FIXED.contains(&entry) { sp.push(entry.to_string(), fixed_cost(costs, entry)); }
+            else if gas_gen::DEP.contains(&entry) {
+                let unit = match mn { "RETD" | "MCL" | "MCLI" => 1, "SMO" | "MCP" | "MCPI" | "K256" | "S256" | "EPAR" => 2, "ALOC" | "CFEI" | "CFE" => 0, "MEQ" | "LOGD" | "ED19" => 3, _ => return None };
+                let mut units = *a.get(unit)?;
+                if mn == "ED19" && units == 0 { units = 32; }
+                let d = dep_cost(costs, entry);
+                sp.push(format!("{entry}[{}]({units})", d.as_ref().map(dep_str).unwrap_or_else(|| "undefined".into())), d.and_then(|d| dep_total(&d, units)));
+            } else { return None; }
         }
     }
+    Some(sp)
 }
 
 fn run_case(ctx: &mut Ctx, scn: &Scn, sched_name: &str, tag: &str) -> Option<u64> {
@@ -117,6 +319,7 @@ fn run_case(ctx: &mut Ctx, scn: &Scn, sched_name: &str, tag: &str) -> Option<u64
     let mut pending: Option<StepRec> = None;
     let mut first: Option<(u64, u64)> = None;
     let mut inv_fail: Vec<String> = vec![];
+    let mut hot: Hot = Hot::new();
     let ready = built.ready;
     let res = ctx.guard(|| run_stepped(&mut vm, ready, 50_000, |vm, stop| {
         let (cg, gg) = (reg(vm, RegId::CGAS), reg(vm, RegId::GGAS));
@@ -138,7 +341,8 @@ fn run_case(ctx: &mut Ctx, scn: &Scn, sched_name: &str, tag: &str) -> Option<u64
                 Err(_) => ("?".to_string(), vec![]),
             };
             let sz = if mn == "?" { vec![] } else { sizes(vm, &mn, &args) };
-            pending = Some(StepRec { pc: reg(vm, RegId::PC), mn, args, sizes: sz, cgas_b: cg, ggas_b: gg, saved_b: saved, cgas_a: 0, ggas_a: 0, saved_a: vec![], receipts_b: vm.receipts().len() });
+            let spec = spec_charges(vm, &costs, &mut hot, &mn, &args);
+            pending = Some(StepRec { pc: reg(vm, RegId::PC), mn, args, sizes: sz, cgas_b: cg, ggas_b: gg, saved_b: saved, cgas_a: 0, ggas_a: 0, saved_a: vec![], receipts_b: vm.receipts().len(), spec });
         }
     }));
     let end = match res { Ok(e) => e, Err(msg) => { ctx.oracle_fail("panic-vm-run", &format!("{tag}"), &msg); return None; } };
@@ -156,7 +360,7 @@ fn run_case(ctx: &mut Ctx, scn: &Scn, sched_name: &str, tag: &str) -> Option<u64
             return None;
         }
     }
-    ctx.emit(&sched_line(&costs), &format!("ok {}", gas_gen::FIXED.len() + gas_gen::DEP.len()));
+    ctx.emit(&sched_line(&costs), &format!("ok {} {}", gas_gen::version(&costs), gas_gen::fixed_values_any(&costs).len() + gas_gen::dep_values_any(&costs).len()));
     let (c0, g0) = first.unwrap_or((scn.gas_limit, scn.gas_limit));
     ctx.emit(&format!("begin {}", scn.gas_limit), &format!("{c0} {g0} 0"));
     let n = steps.len();
@@ -164,9 +368,9 @@ fn run_case(ctx: &mut Ctx, scn: &Scn, sched_name: &str, tag: &str) -> Option<u64
         let last = k + 1 == n;
         let this_panicked = last && panic.is_some() && panic_pc == Some(s.pc);
         let oog = this_panicked && panic == Some(PanicReason::OutOfGas);
-        let inexact = STORAGE_OPS.contains(&s.mn.as_str()) || s.mn == "ECAL";
+        let inexact = s.mn == "ECAL";
         let kind = if inexact { format!("inx {} {}", s.cgas_a, s.ggas_a) }
-            else if this_panicked && !oog { format!("pan {} {}", s.cgas_a, s.ggas_a) }
+            else if this_panicked && !oog { format!("pan {:?} {} {}", panic.unwrap(), s.cgas_a, s.ggas_a) }
             else { "x".to_string() };
         let line = format!("i {} {} {} {} {} {}", s.mn, s.args.len(), s.args.iter().map(|x| x.to_string()).collect::<Vec<_>>().join(" "),
             s.sizes.len(), s.sizes.iter().map(|x| x.to_string()).collect::<Vec<_>>().join(" "), kind).replace("  ", " ").replace("  ", " ");
@@ -196,16 +400,42 @@ fn run_case(ctx: &mut Ctx, scn: &Scn, sched_name: &str, tag: &str) -> Option<u64
         } else if !(this_panicked && s.mn == "CALL") {
             if s.cgas_b.wrapping_sub(s.cgas_a) != used { ctx.oracle_fail("cgas-ggas-delta", &inp, &format!("cgas {}->{} ggas {}->{}", s.cgas_b, s.cgas_a, s.ggas_b, s.ggas_a)); }
         }
-        if let Some(exp) = expected_cost(&costs, &s.mn, &s.args) {
-            let should_oog = exp > s.cgas_b;
-            if should_oog != oog && !(this_panicked && !oog && !should_oog) {
-                ctx.oracle_fail("oog-iff-cost-exceeds-cgas", &inp, &format!("cost {exp} cgas {} oog={oog}", s.cgas_b));
-            } else if !this_panicked && used != exp {
-                ctx.oracle_fail("charge-differs-from-schedule", &inp, &format!("schedule {exp} charged {used}"));
-            } else if this_panicked && !oog && used != 0 && used != exp {
-                ctx.oracle_fail("charge-differs-from-schedule", &inp, &format!("panicking instruction charged {used}, schedule {exp}"));
+        if let Some(sp) = &s.spec {
+            let list = || sp.charges.iter().map(|(w, c)| format!("{w}={c}")).collect::<Vec<_>>().join(" + ");
+            let mut sums: Vec<u128> = vec![0];
+            for (_, c) in &sp.charges { sums.push(sums.last().unwrap() + *c as u128); }
+            // first charge the available context gas does not cover
+            let short = (1..sums.len()).find(|k| sums[*k] > s.cgas_b as u128);
+            let total = *sums.last().unwrap();
+            if let Some(m) = &sp.cache_mismatch { ctx.oracle_fail("slot-cache-differs-from-access-history", &inp, m); }
+            if !this_panicked {
+                if short.is_some() { ctx.oracle_fail("oog-iff-cost-exceeds-cgas", &inp, &format!("schedule [{}] exceeds cgas {} but the instruction completed, charged {used}", list(), s.cgas_b)); }
+                else if !sp.complete { ctx.oracle_fail("completed-where-spec-requires-panic", &inp, &format!("known charges [{}], charged {used}", list())); }
+                else if used as u128 != total { ctx.oracle_fail("charge-differs-from-schedule", &inp, &format!("schedule {total} = [{}] charged {used}", list())); }
+            } else if oog {
+                if short.is_none() && sp.complete { ctx.oracle_fail("oog-iff-cost-exceeds-cgas", &inp, &format!("schedule {total} = [{}] fits cgas {} but OutOfGas", list(), s.cgas_b)); }
+            } else if panic == Some(PanicReason::GasCostNotDefined) || (sp.undefined.is_some() && sp.charges.is_empty()) {
+                // a schedule version without this entry: exactly the charges before it were made
+                match &sp.undefined {
+                    Some(_) if panic == Some(PanicReason::GasCostNotDefined) && short.is_none() && used as u128 == total => {}
+                    Some(w) => ctx.oracle_fail("gas-cost-not-defined-shape", &inp, &format!("entry {w} is not defined in V{}; expected GasCostNotDefined after [{}], got {:?} charged {used}", gas_gen::version(&costs), list(), panic)),
+                    None => ctx.oracle_fail("gas-cost-not-defined-shape", &inp, &format!("all entries of [{}] are defined in V{} but the instruction failed with GasCostNotDefined", list(), gas_gen::version(&costs))),
+                }
+                ctx.count("oracle.gas-cost-not-defined");
+            } else {
+                // panicked for another reason: the first charge precedes every other check, so at least one charge was
+                // made, and exactly a prefix of the list was consumed; a prefix the context gas does not cover is OutOfGas
+                let upto = short.unwrap_or(sums.len());
+                let ok = (1..upto).any(|k| sums[k] == used as u128) || (sp.charges.is_empty() && used == 0);
+                if !ok {
+                    if short == Some(1) { ctx.oracle_fail("oog-iff-cost-exceeds-cgas", &inp, &format!("first charge of [{}] exceeds cgas {} but the instruction panicked otherwise (charged {used})", list(), s.cgas_b)); }
+                    else { ctx.oracle_fail("charge-differs-from-schedule", &inp, &format!("panicking instruction charged {used}, not a non-empty affordable prefix of [{}]", list())); }
+                }
             }
             ctx.count("oracle.schedule-checked");
+            ctx.count(&format!("oracle.charges-{}", sp.charges.len().min(9)));
+            if sp.charges.len() >= 2 { ctx.count(&format!("oracle.multi.{}", s.mn)); }
+            for (w, _) in &sp.charges { if w.starts_with("storage_read_") || w.starts_with("storage_write") || w.starts_with("storage_clear") || w.starts_with("new_storage") { ctx.count(&format!("oracle.micro.{}", w.split(|c| c == '(' || c == '*' || c == '[').next().unwrap())); } }
         }
         let mut key = s.mn.as_bytes().to_vec(); key.extend_from_slice(&used.to_be_bytes()); key.push(s.saved_b.len() as u8); key.push(oog as u8);
         ctx.distinct(&key);
@@ -223,23 +453,124 @@ fn run_case(ctx: &mut Ctx, scn: &Scn, sched_name: &str, tag: &str) -> Option<u64
 
 /// corpus: every opcode of the instruction table executed once (script context, operands = zeroed registers /
 /// zero immediates, then `ret`) under a schedule whose entries are pairwise distinct, so that an opcode charging
-/// another opcode's entry is visible to the oracle and to the model
+/// another opcode's entry is visible to the oracle and to the model — for each `GasCostsValues` version V7 … V1
+/// (old versions lack entries: those opcodes must fail with GasCostNotDefined; some serve a word as a dependent cost)
 fn opcode_sweep(ctx: &mut Ctx) {
+    for k in (1..=7usize).rev() {
+        let f: Vec<u64> = (0..gas_gen::fixed_names(k).len() as u64).map(|i| 1000 + 7 * i).collect();
+        let d: Vec<DependentCost> = (0..gas_gen::dep_names(k).len() as u64).map(|i| DependentCost::LightOperation { base: 5000 + 11 * i, units_per_gas: 3 + i }).collect();
+        let costs = gas_gen::make_version(k, &f, &d);
+        let name = ["", "distinct-v1", "distinct-v2", "distinct-v3", "distinct-v4", "distinct-v5", "distinct-v6", "distinct"][k];
+        for row in g::TABLE {
+            let mut r = ctx.rng.clone();
+            let mut scn = gen_scenario(&mut r, Focus::Gas, costs.clone());
+            let base = *scn.params.base_asset_id();
+            let args: Vec<u32> = row.2.iter().map(|k| if *k == 0 { 0x10 } else { 0 }).collect();
+            let Some(ins) = g::construct(row.0, &args) else { continue };
+            let code = vec![ins, fuel_asm::op::ret(RegId::ONE)];
+            let mut bytes: Vec<u8> = code.iter().flat_map(|i| i.to_bytes()).collect();
+            bytes.extend_from_slice(&pool(&base));
+            scn.script = bytes; scn.gas_limit = 1_000_000; scn.gas_price = 0; scn.coin_outs.clear();
+            run_case(ctx, &scn, name, &format!("sweep {}", row.1));
+            ctx.count("sweep.opcode");
+        }
+    }
+}
+
+/// a randomized schedule of an old version (V1 … V6)
+fn old_version_schedule(rng: &mut crate::ctx::Rng) -> (GasCostsValues, &'static str) {
+    let k = rng.range(1, 6) as usize;
+    let f: Vec<u64> = (0..gas_gen::fixed_names(k).len()).map(|_| match rng.below(10) { 0 => 0, 1 => rng.range(100, 5000), _ => rng.range(1, 20) }).collect();
+    let d: Vec<DependentCost> = (0..gas_gen::dep_names(k).len()).map(|_| {
+        let base = match rng.below(8) { 0 => 0, 1 => rng.range(100, 3000), _ => rng.range(1, 40) };
+        if rng.chance(1, 2) { DependentCost::LightOperation { base, units_per_gas: match rng.below(4) { 0 => 1, 1 => rng.range(2, 9), _ => rng.range(1, 4000) } } }
+        else { DependentCost::HeavyOperation { base, gas_per_unit: match rng.below(5) { 0 => 0, _ => rng.range(1, 30) } } }
+    }).collect();
+    (gas_gen::make_version(k, &f, &d), ["", "random-v1", "random-v2", "random-v3", "random-v4", "random-v5", "random-v6"][k])
+}
+
+fn assemble(body: Vec<Instruction>, base: &AssetId, tail: usize) -> Vec<u8> {
+    use fuel_asm::op;
+    let mut code = vec![op::movi(RP, 0), op::add(RP, RP, RegId::IS)];
+    code.extend(body);
+    code[0] = op::movi(RP, (code.len() * 4) as u32);
+    let mut bytes: Vec<u8> = code.iter().flat_map(|i| i.to_bytes()).collect();
+    bytes.extend_from_slice(&pool(base));
+    bytes.extend(std::iter::repeat(0u8).take(tail));
+    bytes
+}
+
+/// corpus: the dependent-cost opcodes over sizes of every residue modulo 8 — callee code, blob, copy and hash
+/// lengths `8k + t`, `t = 0..7` — under schedules where every single byte (heavy operation, light operation with
+/// `units_per_gas` 3) or every padding step (light, `units_per_gas` 8) changes the resolved cost; and a contract that
+/// walks the storage opcodes through cold / hot, unset / set, growing / shrinking / same-size slot accesses.
+fn dependent_sweep(ctx: &mut Ctx) {
+    use fuel_asm::op;
+    let scheds: Vec<(&str, DependentCost)> = vec![
+        ("heavy3", DependentCost::HeavyOperation { base: 10, gas_per_unit: 3 }),
+        ("light8", DependentCost::LightOperation { base: 10, units_per_gas: 8 }),
+        ("light3", DependentCost::LightOperation { base: 7, units_per_gas: 3 }),
+    ];
+    let (pa, pb, x, y, v) = (0x19u8, 0x1au8, 0x1bu8, 0x1cu8, 0x1du8);
+    for (name, d) in &scheds {
+        let f: Vec<u64> = (0..gas_gen::FIXED.len() as u64).map(|i| 2 + i % 5).collect();
+        let dd: Vec<DependentCost> = (0..gas_gen::DEP.len()).map(|_| *d).collect();
+        let costs = gas_gen::make(&f, &dd);
+        for t in 0..8u32 {
+            let mut r = ctx.rng.clone();
+            let mut scn = gen_scenario(&mut r, Focus::Gas, costs.clone());
+            let base = *scn.params.base_asset_id();
+            let callee = assemble(vec![op::ret(RegId::ONE)], &base, t as usize);
+            scn.contracts = vec![Ctr { id: contract_id(0), code: callee, balances: vec![], as_input: true, tail: t as usize }];
+            scn.blobs = vec![(blob_id(0), vec![7u8; 96 + t as usize]), (blob_id(1), vec![])];
+            let mut b: Vec<Instruction> = vec![];
+            // LDC first (needs $ssp == $sp): contract, blob, memory source, zero length
+            b.extend([op::addi(pa, RP, OFF_CONTRACT), op::movi(x, 1 + t), op::ldc(pa, RegId::ZERO, x, 0), op::movi(x, 4000 + t), op::ldc(pa, RegId::ZERO, x, 0)]);
+            b.extend([op::addi(pa, RP, OFF_ADDR), op::movi(x, 16 + t), op::ldc(pa, RegId::ZERO, x, 1), op::movi(x, 200 + t), op::ldc(pa, RegId::ZERO, x, 1)]);
+            b.extend([op::movi(x, 40 + t), op::ldc(RP, RegId::ZERO, x, 2), op::ldc(RP, RegId::ZERO, RegId::ZERO, 2)]);
+            b.extend([op::movi(x, 8192), op::aloc(x), op::move_(v, RegId::HP)]);
+            b.extend([op::addi(pa, RP, OFF_CONTRACT), op::csiz(y, pa), op::croo(v, pa), op::movi(x, 100 + t), op::ccp(v, pa, RegId::ZERO, x), op::movi(x, 4000 + t), op::ccp(v, pa, RegId::ZERO, x)]);
+            b.extend([op::addi(pb, RP, OFF_ADDR), op::bsiz(y, pb), op::movi(x, 10 + t), op::bldd(v, pb, RegId::ZERO, x), op::movi(x, 300 + t), op::bldd(v, pb, RegId::ZERO, x), op::addi(pb, RP, OFF_ADDR + 32), op::bsiz(y, pb), op::bldd(v, pb, RegId::ZERO, RegId::ZERO)]);
+            b.extend([op::movi(x, 64 + t), op::mcl(v, x), op::mcli(v, 24 + t), op::mcp(v, RP, x), op::mcpi(v, RP, (48 + t) as u16), op::meq(y, v, RP, x), op::s256(v, RP, x), op::k256(v, RP, x), op::logd(RegId::ZERO, RegId::ZERO, RP, x)]);
+            b.extend([op::addi(pa, RP, OFF_CALL), op::addi(pb, RP, OFF_ASSET), op::movi(x, 10_000), op::call(pa, RegId::ZERO, pb, x)]);
+            b.extend([op::movi(x, 8 + t), op::retd(RP, x)]);
+            scn.script = assemble(b, &base, 0);
+            scn.gas_limit = 1_000_000; scn.gas_price = 0; scn.coin_outs.clear();
+            let used = run_case(ctx, &scn, name, &format!("dep-sweep {name} t={t}"));
+            // and once more with a limit inside the consumption: out of gas in the middle of some dependent charge
+            if let Some(u) = used { if u > 2 { let mut s2 = scn.clone(); s2.gas_limit = ctx.rng.range(u / 3, u - 1); run_case(ctx, &s2, name, &format!("dep-sweep {name} t={t} tight")); } }
+            ctx.count("sweep.dependent");
+        }
+    }
+    // storage walk
     let f: Vec<u64> = (0..gas_gen::FIXED.len() as u64).map(|i| 1000 + 7 * i).collect();
-    let d: Vec<DependentCost> = (0..gas_gen::DEP.len() as u64).map(|i| DependentCost::LightOperation { base: 5000 + 11 * i, units_per_gas: 3 + i }).collect();
-    let costs = gas_gen::make(&f, &d);
-    for row in g::TABLE {
+    let distinct: Vec<DependentCost> = (0..gas_gen::DEP.len() as u64).map(|i| DependentCost::LightOperation { base: 5000 + 11 * i, units_per_gas: 3 + i }).collect();
+    let heavy: Vec<DependentCost> = (0..gas_gen::DEP.len() as u64).map(|i| DependentCost::HeavyOperation { base: 20 + i, gas_per_unit: 2 + i % 3 }).collect();
+    let v6 = gas_gen::make_version(6, &(0..gas_gen::fixed_names(6).len() as u64).map(|i| 3 + i).collect::<Vec<_>>(), &(0..gas_gen::dep_names(6).len() as u64).map(|i| DependentCost::HeavyOperation { base: 20 + i, gas_per_unit: 2 }).collect::<Vec<_>>());
+    for (name, costs) in [("distinct", gas_gen::make(&f, &distinct)), ("heavy", gas_gen::make(&f, &heavy)), ("heavy-v6", v6)] {
         let mut r = ctx.rng.clone();
-        let mut scn = gen_scenario(&mut r, Focus::Gas, costs.clone());
+        let mut scn = gen_scenario(&mut r, Focus::Gas, costs);
         let base = *scn.params.base_asset_id();
-        let args: Vec<u32> = row.2.iter().map(|k| if *k == 0 { 0x10 } else { 0 }).collect();
-        let Some(ins) = g::construct(row.0, &args) else { continue };
-        let code = vec![ins, fuel_asm::op::ret(RegId::ONE)];
-        let mut bytes: Vec<u8> = code.iter().flat_map(|i| i.to_bytes()).collect();
-        bytes.extend_from_slice(&pool(&base));
-        scn.script = bytes; scn.gas_limit = 1_000_000; scn.gas_price = 0; scn.coin_outs.clear();
-        run_case(ctx, &scn, "distinct", &format!("sweep {}", row.1));
-        ctx.count("sweep.opcode");
+        let (k0, k7, k1, fl, n) = (0x10u8, 0x11u8, 0x12u8, 0x13u8, 0x14u8);
+        let mut c: Vec<Instruction> = vec![op::addi(k0, RP, OFF_SUB), op::addi(k7, RP, OFF_SUB + 32)];
+        c.extend([op::movi(x, 32), op::aloc(x), op::movi(x, 1), op::sb(RegId::HP, x, 31), op::move_(k1, RegId::HP)]); // key 1
+        c.extend([op::movi(x, 256), op::aloc(x), op::move_(v, RegId::HP)]); // value / read buffer
+        c.extend([op::spld(y, k0), op::spld(y, k0)]); // cold unset, hot unset
+        c.extend([op::swri(k0, v, 5), op::swri(k0, v, 9), op::swri(k0, v, 2)]); // grow 5, grow 4, shrink
+        c.extend([op::movi(n, 2), op::srdd(v, k0, RegId::ZERO, n), op::srdi(v, k0, RegId::ONE, 1)]); // hot reads of 2 bytes
+        c.extend([op::sww(k7, fl, n), op::sww(k7, fl, n), op::srw(y, fl, k7, 0)]); // cold read + 32 new bytes; hot, same size; hot read
+        c.extend([op::movi(n, 3), op::swwq(k1, fl, v, n), op::srwq(v, fl, k1, n)]); // keys 1..3 cold then written; hot reads
+        c.extend([op::movi(n, 4), op::scwq(k1, fl, n)]); // 3 hot + 1 cold read, clear 4
+        c.extend([op::not(y, RegId::ZERO), op::movi(n, 8), op::supd(k7, v, y, n), op::supi(k7, v, RegId::ZERO, 4)]); // append 8 (32 -> 40), overwrite inside
+        c.extend([op::movi(n, 100), op::swrd(k1, v, n), op::movi(n, 2), op::sclr(k7, n), op::spld(y, k7), op::sclr(k0, RegId::ZERO)]);
+        c.push(op::ret(RegId::ONE));
+        scn.contracts = vec![Ctr { id: contract_id(0), code: assemble(c, &base, 3), balances: vec![], as_input: true, tail: 3 }];
+        let b = vec![op::addi(pa, RP, OFF_CALL), op::addi(pb, RP, OFF_ASSET), op::movi(x, 200_000), op::slli(x, x, 4), op::call(pa, RegId::ZERO, pb, x), op::ret(RegId::ONE)];
+        scn.script = assemble(b, &base, 0);
+        scn.gas_limit = 10_000_000; scn.gas_price = 0; scn.coin_outs.clear();
+        let used = run_case(ctx, &scn, name, &format!("storage-walk {name}"));
+        if let Some(u) = used { for k in 0..6u64 { let mut s2 = scn.clone(); s2.gas_limit = u * (k + 1) / 8; run_case(ctx, &s2, name, &format!("storage-walk {name} tight{k}")); } }
+        ctx.count("sweep.storage-walk");
     }
 }
 
@@ -248,9 +579,10 @@ pub fn run(ctx: &mut Ctx) {
     ctx.emit("dflt", &dump(&GasCostsValues::default()));
     ctx.emit("unit", &dump(&GasCostsValues::unit()));
     opcode_sweep(ctx);
+    dependent_sweep(ctx);
     let n = ctx.n(120, 1500);
     for case in 0..n {
-        let (costs, name) = schedule(&mut ctx.rng, gas_gen::FIXED.len(), gas_gen::DEP.len(), &gas_gen::make);
+        let (costs, name) = if ctx.rng.chance(1, 8) { old_version_schedule(&mut ctx.rng) } else { schedule(&mut ctx.rng, gas_gen::FIXED.len(), gas_gen::DEP.len(), &gas_gen::make) };
         let mut scn = gen_scenario(&mut ctx.rng, Focus::Gas, costs);
         if ctx.rng.chance(2, 3) { scn.gas_limit = scn.gas_limit.max(ctx.rng.range(20_000, 2_000_000)); }
         let used = run_case(ctx, &scn, name, &format!("case={case}"));
